@@ -152,3 +152,15 @@ if __name__ == "__main__":
     t = time.time()
     for v in sys.argv[1:] or ["asan"]:
         print(v, ensure_lib(v), "%.1fs" % (time.time() - t))
+
+
+WORLD_WRAPS = ["coap_ticks", "coap_socket_bind_udp", "coap_socket_connect_udp", "coap_socket_send",
+               "coap_socket_recv", "coap_socket_close", "coap_socket_bind_tcp",
+               "coap_socket_accept_tcp", "coap_socket_connect_tcp1", "coap_socket_connect_tcp2",
+               "coap_socket_read", "coap_socket_write", "coap_malloc_type", "coap_realloc_type",
+               "coap_free_type"]
+
+
+def ensure_world(variant="asan"):
+    return ensure_harness(variant, "world", ["world.c", "wraps.c"], wraps=WORLD_WRAPS,
+                          extra_ldflags=["-rdynamic"])
